@@ -1,8 +1,11 @@
 /- Hand-written executable model (tie B): Vario — the preprocessing glue of `vario_estimate`
    (variogram/variogram.py): common-mask rule, no-data handling, direction normalisation, bandwidth
    default, seeded sub-sampling (indices supplied by numpy), unit conversion of great-circle bins,
-   `_separate_dirs_test`.  What reaches the kernel is what this model returns.  Core Lean only. -/
+   `_separate_dirs_test`, and the binning glue (explicit `bin_edges` or `standard_bins(pos, …, geo_scale,
+   bin_no, max_dist)` on the masked / sub-sampled points, bin centres, edges converted to radians).
+   What reaches the kernel is what this model returns.  Core Lean only. -/
 import GSV.Proto
+import GSV.Model.LatLon
 open Lean GSV GSV.Proto GSV.Transc
 namespace GSV.Model.Vario
 
@@ -57,6 +60,29 @@ def separateDirs (dirs : List (List α)) (tol : α) : Bool :=
 def binsToRadians (bins : List α) (latlon : Bool) (geoScale : α) : List α :=
   if latlon then bins.map (· / geoScale) else bins
 
+/-! ### binning glue of `vario_estimate` -/
+section bins
+variable [LatLon.Asin α]
+
+/-- `(bin_edges[:-1] + bin_edges[1:]) / 2.0` -/
+def binCentres (edges : List α) : List α :=
+  (edges.zip edges.tail).map fun p => (p.1 + p.2) / ((2:Nat):α)
+
+/-- the bins of one `vario_estimate` call: `binEdges = none` ↔ `bin_edges=None`, then the edges come from
+    `standard_bins(pos, dim, latlon, geo_scale=geoScale, bin_no=binNo, max_dist=maxDist)` on the positions `axes`
+    that survived masking and sub-sampling.  Everything the caller gives (`bin_edges`, `max_dist`) and gets back
+    (bin centres) is in `geo_scale` units; the kernel receives radians.  Returns `(bin_centers, kernel_edges)`. -/
+def varioBins (binEdges : Option (List α)) (latlon : Bool) (geoScale : α) (axes : List (List α))
+    (binNo : Option Nat) (maxDist : Option α) : Except String (List α × List α) :=
+  let edges : Except String (List α) := match binEdges with
+    | some e => .ok e
+    | none => LatLon.standardBins latlon geoScale (some axes) binNo maxDist
+  match edges with
+  | .error e => .error e
+  | .ok e => .ok (binCentres e, binsToRadians e latlon geoScale)
+
+end bins
+
 /-! ### driver -/
 
 def getBools (j : Json) (k : String) : Except String (Array Bool) := do
@@ -94,6 +120,32 @@ def ops (op : String) (j : Json) : Option (Except String Json) :=
       let dirs := (List.range nd).map fun i => (List.range dim).map fun k => d[i * dim + k]!
       let nd' := dirs.map normDir
       return Json.mkObj [("dirs", fl2 nd'), ("separate", Json.bool (separateDirs nd' tol))])
+  | "vario_bins_full" => some (do
+      -- the whole binning path: masking + sub-sampling select the points standard_bins looks at
+      let nf ← getNat j "F"; let np ← getNat j "P"; let dim ← getNat j "dim"
+      let fm ← getBools j "fmask"; let x ← getFloats j "pos"
+      let em : Option (Nat → Bool) ← match j.getObjVal? "mask" with
+        | .ok (Json.arr _) => do let m ← getBools j "mask"; pure (some (fun p => m[p]!))
+        | _ => pure none
+      let sampled : Option (List Nat) ← match j.getObjVal? "sampled" with
+        | .ok (Json.arr _) => do let a ← getNats j "sampled"; pure (some a.toList)
+        | _ => pure none
+      let ll ← getBool j "latlon"; let gs ← getFloat j "geo_scale"
+      let be : Option (List Float) ← match j.getObjVal? "bins" with
+        | .ok (Json.arr _) => do let b ← getFloats j "bins"; pure (some b.toList)
+        | _ => pure none
+      let binNo : Option Nat ← match j.getObjVal? "bin_no" with
+        | .ok (Json.num _) => do let n ← getNat j "bin_no"; pure (some n)
+        | _ => pure none
+      let maxDist : Option Float ← match j.getObjVal? "max_dist" with
+        | .ok (Json.num _) => do let m ← getFloat j "max_dist"; pure (some m)
+        | _ => pure none
+      let fmask := fun m p => fm[m * np + p]!
+      let pts := finalPoints (keptPoints em fmask nf np) sampled
+      let axes := (List.range dim).map fun d => pts.map fun p => x[d * np + p]!
+      match varioBins be ll gs axes binNo maxDist with
+      | .ok (c, k) => return Json.mkObj [("centres", fl c), ("kernel", fl k)]
+      | .error e => return Json.mkObj [("raised", Json.str e)])
   | "vario_bins" => some (do
       let b ← getFloats j "bins"; let ll ← getBool j "latlon"; let gs ← getFloat j "geo_scale"
       return fl (binsToRadians b.toList ll gs))
